@@ -3,6 +3,7 @@ CONSTANTS
   AMax = 2
   AMaxCG = 3
   KMax = 2
+  Thin = 1
   Wide = FALSE
   BsBound = 20
   Methods = {"cg", "bicgstab.left", "bicgstab.right", "richardson", "richardson.half", "gmres.left.K", "gmres.right.1"}
